@@ -7,15 +7,17 @@
 (* writes and the value the REPL shows for it; the expected output of a script in file mode is  *)
 (* the concatenation of what its statements write, in REPL mode the transcript.                 *)
 EXTENDS Integers, Sequences, TLC, Json, FiniteSets
-CONSTANT MaxStmts
+CONSTANTS MaxStmts,   \* scripts of up to this many statements
+          LongN,      \* the long line is 10 * LongN characters (500: longer than any terminal line; 7000: longer than 64 KiB)
+          OnlyLong    \* TRUE: only scripts that contain a long line
 \* a line with the raw counts Loop looks at: { } [ ] " and \"
 L(txt, lb, rb, lk, rk, q, eq) == [txt |-> txt, lb |-> lb, rb |-> rb, lk |-> lk, rk |-> rk, q |-> q, eq |-> eq]
 RECURSIVE Rep(_, _)
 Rep(str, n) == IF n = 0 THEN "" ELSE IF n % 2 = 0 THEN LET h == Rep(str, n \div 2) IN h \o h ELSE str \o Rep(str, n - 1)
-Long == Rep("abcdefghij", 500)          \* 5000 characters: longer than any line buffer
+Long == Rep("abcdefghij", LongN)
 Shapes == <<
   [name |-> "longline",  lines |-> << L("write(\"" \o Long \o "\")", 0, 0, 0, 0, 2, 0) >>, out |-> Long, val |-> "nil"],
-  [name |-> "longexpr",  lines |-> << L("1" \o Rep(" + 1", 1500), 0, 0, 0, 0, 0, 0) >>, out |-> "", val |-> "1501"],
+  [name |-> "longexpr",  lines |-> << L("1" \o Rep("    +    1", LongN), 0, 0, 0, 0, 0, 0) >>, out |-> "", val |-> ToString(LongN + 1)],
   [name |-> "plain",     lines |-> << L("write(\"A\")", 0, 0, 0, 0, 2, 0) >>, out |-> "A", val |-> "nil"],
   [name |-> "value",     lines |-> << L("1 + 2", 0, 0, 0, 0, 0, 0) >>, out |-> "", val |-> "3"],
   [name |-> "strLB",     lines |-> << L("write(\"{\")", 1, 0, 0, 0, 2, 0) >>, out |-> "{", val |-> "nil"],
@@ -35,6 +37,12 @@ Shapes == <<
   [name |-> "blockblank", lines |-> << L("if true {", 1, 0, 0, 0, 0, 0), L("", 0, 0, 0, 0, 0, 0), L("write(\"G\")", 0, 0, 0, 0, 2, 0), L("", 0, 0, 0, 0, 0, 0), L("}", 0, 1, 0, 0, 0, 0) >>, out |-> "G", val |-> "nil"],
   [name |-> "blockmlstr", lines |-> << L("if true {", 1, 0, 0, 0, 0, 0), L("write(\"p", 0, 0, 0, 0, 1, 0), L("q\")", 0, 0, 0, 0, 1, 0), L("}", 0, 1, 0, 0, 0, 0) >>, out |-> "p\nq", val |-> "nil"],
   [name |-> "arraymlstr", lines |-> << L("write([\"one", 0, 0, 1, 0, 1, 0), L("two\", 1][0])", 0, 0, 1, 2, 1, 0) >>, out |-> "one\ntwo", val |-> "nil"],
+  [name |-> "ifelseFa",  lines |-> << L("if 1 > 2 write(\"T\") else od = 5", 0, 0, 0, 0, 2, 0) >>, out |-> "", val |-> "5"],
+  [name |-> "ifelseTa",  lines |-> << L("if 2 > 1 write(\"T\") else od = 5", 0, 0, 0, 0, 2, 0) >>, out |-> "T", val |-> "nil"],
+  [name |-> "ifelseFw",  lines |-> << L("if 1 > 2 oe = 6 else write(\"U\")", 0, 0, 0, 0, 2, 0) >>, out |-> "U", val |-> "nil"],
+  [name |-> "ifelseTw",  lines |-> << L("if 2 > 1 oe = 6 else write(\"U\")", 0, 0, 0, 0, 2, 0) >>, out |-> "", val |-> "6"],
+  [name |-> "ifelseFl",  lines |-> << L("if 1 > 2 3 + 4 else 8", 0, 0, 0, 0, 0, 0) >>, out |-> "", val |-> "8"],
+  [name |-> "ifelseTl",  lines |-> << L("if 2 > 1 9 else [1, 2][0]", 0, 0, 2, 2, 0, 0) >>, out |-> "", val |-> "9"],
   [name |-> "blank",     lines |-> << L("", 0, 0, 0, 0, 0, 0) >>, out |-> "", val |-> ""],
   [name |-> "comment",   lines |-> << L("; just a note", 0, 0, 0, 0, 0, 0) >>, out |-> "", val |-> ""],
   [name |-> "semi",      lines |-> << L("write(\";\")", 0, 0, 0, 0, 2, 0) >>, out |-> ";", val |-> "nil"]
@@ -62,7 +70,7 @@ FileOut(s) == Cat([i \in 1..Len(s) |-> Shapes[s[i]].out])
 ReplOut(s) == Cat([i \in 1..Len(s) |-> Shapes[s[i]].out \o (IF Shapes[s[i]].val = "" THEN "" ELSE "> " \o Shapes[s[i]].val \o "\n")])
 VARIABLES sc, done
 vars == <<sc, done>>
-Init == sc \in (Scripts(MaxStmts) \ {<<>>}) /\ done = FALSE
+Init == sc \in {s \in (Scripts(MaxStmts) \ {<<>>}) : ~OnlyLong \/ \E i \in 1..Len(s) : s[i] \in {1, 2}} /\ done = FALSE
 Next == /\ ~done /\ done' = TRUE /\ UNCHANGED sc
         /\ PrintT("OBS " \o ToJson([names |-> [i \in 1..Len(sc) |-> Shapes[sc[i]].name],
                                     lines |-> [i \in 1..Len(Flat(sc)) |-> Flat(sc)[i].txt],
